@@ -165,9 +165,13 @@ func runOnce(src string, rsize int, mpm bool, p Plan, deadline time.Duration, pr
 	go func() { done <- cmd.Wait() }()
 	var werr error
 	timedOut := false
+	expired := time.After(deadline)
+	if probe {
+		expired = idleOrExpired(cmd.Process.Pid, deadline, done)
+	}
 	select {
 	case werr = <-done:
-	case <-time.After(deadline):
+	case <-expired:
 		timedOut = true
 		_ = cmd.Process.Signal(syscall.SIGQUIT) // the Go runtime prints every goroutine and exits
 		select {
@@ -230,6 +234,75 @@ func runOnce(src string, rsize int, mpm bool, p Plan, deadline time.Duration, pr
 	}
 	res.Status = "ok"
 	return res
+}
+
+// idleOrExpired fires when the deadline passes or, earlier, when the child has been completely idle
+// (every thread sleeping, no CPU time consumed) for 300 ms after its first 300 ms: the moment to ask
+// for the goroutine dump. The dump, not the timing, decides (see runOnce): an idle process whose dump
+// is not the D8 deadlock is simply run again under the full deadline.
+func idleOrExpired(pid int, deadline time.Duration, done <-chan error) <-chan time.Time {
+	out := make(chan time.Time, 1)
+	go func() {
+		start := time.Now()
+		var last uint64
+		idle := 0
+		for {
+			time.Sleep(100 * time.Millisecond)
+			if time.Since(start) >= deadline {
+				out <- time.Now()
+				return
+			}
+			if len(done) > 0 {
+				return
+			}
+			cpu, sleeping, ok := procIdle(pid)
+			if !ok {
+				return // gone
+			}
+			if sleeping && cpu == last && time.Since(start) > 300*time.Millisecond {
+				idle++
+			} else {
+				idle = 0
+			}
+			last = cpu
+			if idle >= 3 {
+				out <- time.Now()
+				return
+			}
+		}
+	}()
+	return out
+}
+
+// procIdle sums utime+stime over the threads of pid and reports whether all of them sleep.
+func procIdle(pid int) (cpu uint64, sleeping bool, ok bool) {
+	tasks, err := filepath.Glob(fmt.Sprintf("/proc/%d/task/*/stat", pid))
+	if err != nil || len(tasks) == 0 {
+		return 0, false, false
+	}
+	sleeping = true
+	for _, t := range tasks {
+		b, err := os.ReadFile(t)
+		if err != nil {
+			continue
+		}
+		s := string(b)
+		i := strings.LastIndexByte(s, ')')
+		if i < 0 {
+			continue
+		}
+		f := strings.Fields(s[i+1:])
+		if len(f) < 13 {
+			continue
+		}
+		if f[0] != "S" {
+			sleeping = false
+		}
+		u, _ := strconv.ParseUint(f[11], 10, 64)
+		k, _ := strconv.ParseUint(f[12], 10, 64)
+		cpu += u + k
+	}
+	return cpu, sleeping, true
 }
 
 // RunBondgo runs the compiler once under the plan: first with the probe deadline, then (only if the
